@@ -343,6 +343,17 @@ impl<'e> Env<'e> {
             }
         }
     }
+    /// The representation the ordinary decryptor expects (BFV: coefficient form, BGV/CKKS: NTT form).
+    fn to_default_form(&self, c: Ciphertext) -> Ciphertext {
+        let want_ntt = self.scn.spec.scheme != BFV;
+        if c.is_ntt_form() == want_ntt {
+            c
+        } else if want_ntt {
+            catch_res(|| self.eval.transform_to_ntt_new(&c)).unwrap_or(c)
+        } else {
+            catch_res(|| self.eval.transform_from_ntt_new(&c)).unwrap_or(c)
+        }
+    }
     fn product(a: &Msg, b: &Msg, t: u64) -> Msg {
         match (a, b) {
             (Msg::Slots(x), Msg::Slots(y)) => Msg::Slots(x.iter().zip(y.iter()).map(|(&p, &q)| ((p as u128 * q as u128) % t as u128) as u64).collect()),
@@ -517,7 +528,7 @@ fn run_inner(scn: &Scn, res: &mut ScnResult) -> Result<(), String> {
             let enc = Encryptor::new(ctx0.clone()).set_public_key(pk.clone());
             let mut m = m;
             let mut c = enc.encrypt_new(&env.encode(&m));
-            if scn.preps.get(idx).copied().unwrap_or(0) >= 100 {
+            if scn.preps.get(idx).copied().unwrap_or(0) % 1000 >= 100 {
                 if let Some(rk) = &rlk {
                     // an evaluated ciphertext: product of two encryptions, relinearized with the *collective* key
                     let m2 = env.fresh_msg(&mut mrng);
@@ -538,6 +549,14 @@ fn run_inner(scn: &Scn, res: &mut ScnResult) -> Result<(), String> {
                 }
                 c = env.eval.mod_switch_to_next_new(&c);
                 res.count("probe.session_on_mod_switched_ciphertext", 1);
+            }
+            // key switching accepts both representations: sometimes hand it the non-default one
+            if scn.preps.get(idx).copied().unwrap_or(0) >= 1000 && matches!(kind, Kind::KeySwitch | Kind::PublicKeySwitch) {
+                let flipped = if c.is_ntt_form() { catch_res(|| env.eval.transform_from_ntt_new(&c)) } else { catch_res(|| env.eval.transform_to_ntt_new(&c)) };
+                if let Ok(f) = flipped {
+                    c = f;
+                    res.count("probe.session_on_non_default_representation", 1);
+                }
             }
             cipher = Some(c);
             msg = Some(m);
@@ -704,6 +723,7 @@ fn run_inner(scn: &Scn, res: &mut ScnResult) -> Result<(), String> {
                     let p = io.protos[i].take().unwrap();
                     let r = catch_res(|| p.finish());
                     if let Some(ct) = judge_finish(res, kind, scheme, i, &out, r) {
+                        let ct = env.to_default_form(ct);
                         if let Err(d) = catch_res(|| env.matches(&dec_new.decrypt_new(&ct), msg.as_ref().unwrap(), ckks_tol)).unwrap_or_else(Err) {
                             res.found.push(Found {
                                 key: format!("{}/{}/wrong-plaintext", kind.name(), scheme),
@@ -736,6 +756,7 @@ fn run_inner(scn: &Scn, res: &mut ScnResult) -> Result<(), String> {
                     let p = io.protos[i].take().unwrap();
                     let r = catch_res(|| p.finish());
                     if let Some(ct) = judge_finish(res, kind, scheme, i, &out, r) {
+                        let ct = env.to_default_form(ct);
                         if let Err(d) = catch_res(|| env.matches(&dec_t.decrypt_new(&ct), msg.as_ref().unwrap(), ckks_tol)).unwrap_or_else(Err) {
                             res.found.push(Found {
                                 key: format!("{}/{}/wrong-plaintext", kind.name(), scheme),
@@ -944,7 +965,7 @@ fn gen_scn(rng: &mut Prng, run_seed: u64, max_n: usize) -> Option<Scn> {
     }
     let preps: Vec<usize> = sessions
         .iter()
-        .map(|_| (if rng.chance(1, 3) { rng.range(1, 2) } else { 0 }) + if with_relin && rng.chance(1, 3) { 100 } else { 0 })
+        .map(|_| (if rng.chance(1, 3) { rng.range(1, 2) } else { 0 }) + if with_relin && rng.chance(1, 3) { 100 } else { 0 } + if rng.chance(1, 3) { 1000 } else { 0 })
         .collect();
     let finishers: Vec<Vec<usize>> = sessions
         .iter()
